@@ -1000,6 +1000,11 @@ def readGraph(input_file,
         except UnicodeEncodeError as errmsg:
             raise ValueError(
                 "[Non-ascii chars in GML file] {} ".format(errmsg))
+        except (TypeError, AttributeError, IndexError, KeyError) as errmsg:
+            # on malformed input the GML parser of networkx may fail in
+            # other ways, and the graph may be of the wrong kind
+            # (e.g. undirected where a directed one is expected)
+            raise ValueError("[Parse error in GML input] {} ".format(errmsg))
 
     elif file_format == 'kthlist' and graph_type == 'bipartite':
 
